@@ -347,6 +347,69 @@ macro_rules! basics {
     };
 }
 
+
+/// Census of small string spaces (row kind 12): every string of the space is parsed, every ACCEPTED one is
+/// logged as an ordinary parse row (kind 6, judged like any other), and the number of accepted strings is
+/// logged for the judge to compare with the number of in-range numerals in the space.  Spaces: 0 = the decimal
+/// numerals "0" .. "199999", 1 = the same with a leading '+', 2 = every string of 1 to 3 printable ASCII
+/// characters.  Accepted-set = expected-set follows from "every accepted one is right" + "the counts agree".
+macro_rules! census {
+    ($w:expr, $T:ty, $tc:expr) => {
+        let one = |w: &mut ChunkWriter, s: &str, acc: &mut i64| {
+            let (res, al) = guarded(|| <$T>::from_str(s).map(|y| y.get() as i64));
+            let (ok, val) = match res {
+                Some(Ok(y)) => (1, y),
+                Some(Err(_)) => (0, -1),
+                None => (PANIC, PANIC),
+            };
+            if ok != 0 || al != 0 {
+                if ok == 1 {
+                    *acc += 1;
+                }
+                let mut row = vec![6, CFG, $tc, ok, val, al as i64, s.len() as i64];
+                row.extend(s.bytes().map(|b| b as i64));
+                w.push(&row);
+            }
+        };
+        for mode in 0..2i64 {
+            let mut acc = 0i64;
+            let mut buf = Buf { b: [0; 64], n: 0 };
+            for v in 0..200000u32 {
+                buf.n = 0;
+                let _ = if mode == 0 { write!(buf, "{}", v) } else { write!(buf, "+{}", v) };
+                one(&mut $w, core::str::from_utf8(&buf.b[..buf.n]).unwrap(), &mut acc);
+            }
+            $w.push(&[12, CFG, $tc, mode, acc, 200000]);
+        }
+        let mut acc = 0i64;
+        let mut total = 0i64;
+        let mut b = [0u8; 3];
+        for n in 1..=3usize {
+            let mut idx = [0u8; 3];
+            loop {
+                for i in 0..n {
+                    b[i] = 0x20 + idx[i];
+                }
+                one(&mut $w, core::str::from_utf8(&b[..n]).unwrap(), &mut acc);
+                total += 1;
+                let mut i = 0;
+                while i < n {
+                    idx[i] += 1;
+                    if idx[i] < 95 {
+                        break;
+                    }
+                    idx[i] = 0;
+                    i += 1;
+                }
+                if i == n {
+                    break;
+                }
+            }
+        }
+        $w.push(&[12, CFG, $tc, 2, acc, total]);
+    };
+}
+
 fn strings(tier: &str, r: &mut Lcg) -> Vec<String> {
     let alpha: Vec<char> = "0123456789+- a".chars().collect();
     let mut out: Vec<String> = vec![String::new()];
@@ -451,6 +514,7 @@ pub fn table_ints(dir: &str, tier: &str, seed: u64, per: usize) -> (usize, u64) 
     nt_try_from!(w, U4, 0, U7, 1, 127);
     nt_from!(w, U4, 0, Channel, 3, 15);
     basics!(w, U4, 0, u8, 15, strs, small);
+    census!(w, U4, 0);
     probe_prims!(w, &mut r, nrand, U4, 0, [(i8, 1, true)]);
     probe_newtypes!(w, U4, 0, [(U7, 1, 127), (U14, 2, 16383), (Channel, 3, 15), (KeyNumber, 4, 127), (ControllerNumber, 5, 127)]);
     // ---- U7 (1)
@@ -462,6 +526,7 @@ pub fn table_ints(dir: &str, tier: &str, seed: u64, per: usize) -> (usize, u64) 
     nt_from!(w, U7, 1, KeyNumber, 4, 127);
     nt_from!(w, U7, 1, ControllerNumber, 5, 127);
     basics!(w, U7, 1, u8, 127, strs, mid);
+    census!(w, U7, 1);
     probe_prims!(w, &mut r, nrand, U7, 1, [(i8, 1, true)]);
     probe_newtypes!(w, U7, 1, [(U4, 0, 15), (U14, 2, 16383), (Channel, 3, 15), (KeyNumber, 4, 127), (ControllerNumber, 5, 127)]);
     // ---- U14 (2)
@@ -474,6 +539,7 @@ pub fn table_ints(dir: &str, tier: &str, seed: u64, per: usize) -> (usize, u64) 
     nt_from!(w, U14, 2, U4, 0, 15);
     nt_from!(w, U14, 2, U7, 1, 127);
     basics!(w, U14, 2, u16, 16383, strs, big);
+    census!(w, U14, 2);
     probe_prims!(w, &mut r, nrand, U14, 2, [(i16, 3, true), (isize, 11, false)]);
     probe_newtypes!(w, U14, 2, [(U4, 0, 15), (U7, 1, 127), (Channel, 3, 15), (KeyNumber, 4, 127), (ControllerNumber, 5, 127)]);
     // ---- Channel (3)
@@ -482,6 +548,7 @@ pub fn table_ints(dir: &str, tier: &str, seed: u64, per: usize) -> (usize, u64) 
     to_prims!(w, Channel, 3, 15, [(u8, 0), (i8, 1), (u16, 2), (i16, 3), (u32, 4), (i32, 5), (u64, 6), (i64, 7), (u128, 8), (i128, 9), (usize, 10), (isize, 11)]);
     nt_from!(w, Channel, 3, U4, 0, 15);
     basics!(w, Channel, 3, u8, 15, strs, small);
+    census!(w, Channel, 3);
     probe_prims!(w, &mut r, nrand, Channel, 3, [(i8, 1, true)]);
     probe_newtypes!(w, Channel, 3, [(U4, 0, 15), (U7, 1, 127), (U14, 2, 16383), (KeyNumber, 4, 127), (ControllerNumber, 5, 127)]);
     // ---- KeyNumber (4)
@@ -490,6 +557,7 @@ pub fn table_ints(dir: &str, tier: &str, seed: u64, per: usize) -> (usize, u64) 
     to_prims!(w, KeyNumber, 4, 127, [(u8, 0), (i8, 1), (u16, 2), (i16, 3), (u32, 4), (i32, 5), (u64, 6), (i64, 7), (u128, 8), (i128, 9), (usize, 10), (isize, 11)]);
     nt_from!(w, KeyNumber, 4, U7, 1, 127);
     basics!(w, KeyNumber, 4, u8, 127, strs, mid);
+    census!(w, KeyNumber, 4);
     probe_prims!(w, &mut r, nrand, KeyNumber, 4, [(i8, 1, true)]);
     probe_newtypes!(w, KeyNumber, 4, [(U4, 0, 15), (U7, 1, 127), (U14, 2, 16383), (Channel, 3, 15), (ControllerNumber, 5, 127)]);
     // ---- ControllerNumber (5)
@@ -498,6 +566,7 @@ pub fn table_ints(dir: &str, tier: &str, seed: u64, per: usize) -> (usize, u64) 
     to_prims!(w, ControllerNumber, 5, 127, [(u8, 0), (i8, 1), (u16, 2), (i16, 3), (u32, 4), (i32, 5), (u64, 6), (i64, 7), (u128, 8), (i128, 9), (usize, 10), (isize, 11)]);
     nt_from!(w, ControllerNumber, 5, U7, 1, 127);
     basics!(w, ControllerNumber, 5, u8, 127, strs, mid);
+    census!(w, ControllerNumber, 5);
     probe_prims!(w, &mut r, nrand, ControllerNumber, 5, [(i8, 1, true)]);
     probe_newtypes!(w, ControllerNumber, 5, [(U4, 0, 15), (U7, 1, 127), (U14, 2, 16383), (Channel, 3, 15), (KeyNumber, 4, 127)]);
     w.finish()
